@@ -57,7 +57,10 @@ def handler(st, opts):
             continue
         dt = X.cores[0].dtype
         pre = project.derived_desc(X.cores)
-        pre_dense = project.dense(X.cores)
+        # (contraction of contiguous copies: the value of an object is a function of the entries of its cores, not of their memory
+        #  layout - BLAS sums non-contiguous operands in another order, 1e-14 apart; bit-identity of the cores is checked separately)
+        cdense = lambda cores: project.dense([c.detach().resolve_conj().contiguous() for c in cores])
+        pre_dense = cdense(X.cores)
         snap = algrun.snapshot([X])
         try:
             if op == "save_load":
@@ -134,10 +137,10 @@ def handler(st, opts):
                         a.detach().resolve_conj().contiguous().numpy().tobytes() != b.detach().resolve_conj().contiguous().numpy().tobytes():
                     problems.append(P("cores", "core %d is not bit-identical after %s" % (k, op)))
                     break
-        got = project.dense(Y.cores)
+        got = cdense(Y.cores)
         if op in CASTS:
             ref = pre_dense.to(want_dt)
-            if not torch.equal(got, project.dense([c.to(want_dt) for c in X.cores])):
+            if not torch.equal(got, cdense([c.to(want_dt) for c in X.cores])):
                 # value must be the cast value (contraction of cast cores)
                 problems.append(P("value", "to(dtype) value differs from the cast cores' value"))
         else:
@@ -153,7 +156,7 @@ def handler(st, opts):
                 # a write into the clone's storage (done by the harness) must leave the original untouched
                 for c in Y.cores:
                     c.detach().mul_(0)
-                if not torch.equal(project.dense(X.cores), pre_dense):
+                if not torch.equal(cdense(X.cores), pre_dense):
                     problems.append(P("aliasing", "writing into the clone changed the original"))
         if op == "detach" and any(c.requires_grad for c in Y.cores):
             problems.append(P("grad", "detach() result still requires grad"))
@@ -174,7 +177,8 @@ def tied_extra(run):
                 "operator and its transposed view": lambda: tt.TT([Bm, Bm.transpose(1, 2)])}
         for oname, mk in objs.items():
             X = mk()
-            ref = project.dense(X.cores).clone()
+            cdense = lambda cores: project.dense([c.detach().resolve_conj().contiguous() for c in cores])      # layout independent
+            ref = cdense(X.cores).clone()
             pre = project.derived_desc(X.cores)
             ops = {"clone": lambda: X.clone(), "detach": lambda: X.detach(), "cpu": lambda: X.cpu(), "to": lambda: X.to("cpu"),
                    "conj.conj": lambda: X.conj().conj(), "save_load": None}
@@ -200,9 +204,9 @@ def tied_extra(run):
                     continue
                 if not isinstance(Y, tt.TT) or project.wf_problems(Y) or project.derived_desc(Y.cores) != pre:
                     run.problems.append(P("descriptor", "the copy is not a well-formed object of the same kind, shape and ranks"))
-                elif not torch.equal(project.dense(Y.cores), ref):
+                elif not torch.equal(cdense(Y.cores), ref):
                     run.problems.append(P("value", "the copy's dense value differs from the original's"))
-                if not torch.equal(project.dense(X.cores), ref):
+                if not torch.equal(cdense(X.cores), ref):
                     run.problems.append(P("operand-changed", "the original changed"))
     run.evaluations += n
     run.stats["tied_core_cases"] = n
